@@ -181,7 +181,7 @@ class Repo:
     def __init__(self, root: str = "/repo", package: str = "agilerl", overrides: Optional[Dict[str, str]] = None):
         self.root = root
         self.package = package
-        self.overrides = overrides or {}  # relative path -> source text (self-validation variants)
+        self.src_overrides = overrides or {}  # relative path -> source text (self-validation variants)
         self.mods: Dict[str, Mod] = {}
         self.n_files = 0
         self.n_functions = 0
@@ -205,8 +205,8 @@ class Repo:
                 if modname.endswith(".__init__"):
                     modname = modname[: -len(".__init__")]
                     is_pkg = True
-                if rel in self.overrides:
-                    src = self.overrides[rel]
+                if rel in self.src_overrides:
+                    src = self.src_overrides[rel]
                 else:
                     with open(path, "r", encoding="utf-8") as fh:
                         src = fh.read()
